@@ -83,6 +83,8 @@ token * mmd_critic_tokenize_string(const char * source, size_t start, size_t len
 	trie_insert(ac, "{>>", CM_COM_OPEN);
 	trie_insert(ac, "<<}", CM_COM_CLOSE);
 
+	// An escaped backslash escapes nothing itself ("\\\\{++" is a backslash followed by a live opener)
+	trie_insert(ac, "\\\\", CM_PLAIN_TEXT);
 	trie_insert(ac, "\\{", CM_PLAIN_TEXT);
 	trie_insert(ac, "\\}", CM_PLAIN_TEXT);
 	trie_insert(ac, "\\{", CM_PLAIN_TEXT);
